@@ -626,6 +626,11 @@ func (env *evalEnv) call(v *ast.CallExpr) SV {
 				return SV{t: tb.Le(r, tb.Int(-100000)), typ: boolT}
 			}
 			return SV{t: tb.Lt(r, tb.Int(0)), typ: boolT}
+		case "yieldcount":
+			if e.yieldParam == nil {
+				env.fail("yieldcount() outside a unit with a `yields` clause")
+			}
+			return SV{t: e.yieldCount(env.st), typ: types.Typ[types.Int]}
 		case "yieldstopped", "yieldbad":
 			// the `yields` protocol: the callback has returned false / it was called (or handed on) after that
 			if e.yieldParam == nil {
